@@ -218,6 +218,11 @@ impl Sink for HistSink<'_> {
         self.seen(&v);
         if self.seq.len() <= self.expect.len() + 2 {
             self.seq.push(v);
+        } else {
+            // a runaway iterator (e.g. an enum with holes treated as a 2^32 element range in a build without
+            // debug checks) must not spin: unwinding out of the consuming operation ends it, the caller's
+            // catch_unwind reports the panic as a violation of the operation
+            panic!("runaway iteration: more than {} items from a sequence of {}", self.seq.len(), self.expect.len());
         }
     }
 
